@@ -31,25 +31,29 @@ import (
 //	       <slot :Var="it"></slot></div> - the same slot content is used once per item (twice per
 //	       item with Twice), each use with that item as slot prop, so the expected outline is that
 //	       of a loop over List whose body is kids
+//	text : a non-whitespace text sibling " wM " (Interp: " w{{ tw }}M " with tw="Z"), never placed
+//	       between the members of a chain; it is part of the own text of the enclosing marker
+//	       element (of the virtual root at top level)
 //	vloop: <div data-m=M v-for="(vi, Var) in List">tM-{{ vi }} kids</div> over a list of plain
 //	       values (VLists; nil allowed): the bare loop variable Var shadows the global of that name
 //	Pre / Once on a later chain member: the member also carries v-pre / v-once
 //
 // An elif / else node that does not continue a chain is an orphan.
 type Node struct {
-	Kind  string `json:"kind"`
-	M     string `json:"m"`
-	Cond  string `json:"cond,omitempty"` // [!]name or [!]loopvar.name
-	Tmpl  bool   `json:"tmpl,omitempty"`
-	For   int    `json:"for,omitempty"`
-	Sep   string `json:"sep,omitempty"` // what precedes the node: "" | "w" | "c" | "wcw"
-	List  string `json:"list,omitempty"`
-	Var   string `json:"var,omitempty"`
-	Pre   bool   `json:"pre,omitempty"`   // member also carries v-pre (leaf members only)
-	Once  bool   `json:"once,omitempty"`  // member also carries v-once
-	Twice bool   `json:"twice,omitempty"` // slotted: the component uses its slot twice per item
-	Props int    `json:"props,omitempty"` // include: number of props p0.. passed to the component
-	Kids  []Node `json:"kids,omitempty"`
+	Kind   string `json:"kind"`
+	M      string `json:"m"`
+	Cond   string `json:"cond,omitempty"` // [!]name or [!]loopvar.name
+	Tmpl   bool   `json:"tmpl,omitempty"`
+	For    int    `json:"for,omitempty"`
+	Sep    string `json:"sep,omitempty"` // what precedes the node: "" | "w" | "c" | "wcw"
+	List   string `json:"list,omitempty"`
+	Var    string `json:"var,omitempty"`
+	Pre    bool   `json:"pre,omitempty"`    // member also carries v-pre (leaf members only)
+	Once   bool   `json:"once,omitempty"`   // member also carries v-once
+	Interp bool   `json:"interp,omitempty"` // text: contains an interpolation
+	Twice  bool   `json:"twice,omitempty"`  // slotted: the component uses its slot twice per item
+	Props  int    `json:"props,omitempty"`  // include: number of props p0.. passed to the component
+	Kids   []Node `json:"kids,omitempty"`
 }
 
 // Case is a template (forest of nodes) plus its data.
@@ -232,45 +236,49 @@ type scope map[string]map[string]vals.V
 
 // stats is what the model learns about a case besides the expected outline.
 type stats struct {
-	ignore      map[string]bool // markers of orphans: nothing is asserted about them
-	chains      int
-	maxMembers  int
-	chose       map[string]int // "if" | "elif" | "else" | "none" -> how often
-	nonBool     bool
-	inLoop      bool // a chain evaluated inside a loop body
-	inChain     bool // a chain nested inside a chain member
-	tmpl        bool
-	forMember   bool
-	orphans     int
-	adjacent    bool
-	seps        map[string]bool
-	depth       int
-	forElse     []*Node // region of C03-vfor-on-else-member: chosen non-first members carrying v-for
-	forIfElif   []*Node // region of C03-vfor-on-if-member: falsy first member carrying v-for, next member v-else-if
-	forIfPre    []*Node // region of C03-vfor-on-if-member-vpre-tail: truthy first member carrying v-for, a later member carries v-pre
-	forSkipped  []*Node // region of C03-vfor-member-after-chosen-branch: an earlier member was chosen (v-else-if, or v-if with v-for) and the member directly before the v-else carries v-for
-	negated     bool
-	sibBefore   bool
-	sibAfter    bool
-	loopEmpty   bool
-	shadowed    bool // a condition read a vloop variable
-	shadowOpp   bool // ... that shadows a global of the opposite truthiness
-	shadowNil   bool // ... being nil while the shadowed global is truthy
-	vloops      int
-	slotted     int  // slot uses evaluated
-	slotChain   bool // a chain evaluated inside slot content
-	slotTwice   bool
-	preMember   bool
-	onceMember  bool
-	laterDeco   bool          // an unchosen member after the chosen one carries v-pre / v-once / v-for
-	chosenN     map[*Node]int // how often each member was the chosen one
-	onceRepeat  []*Node       // v-once members chosen more than once: C16's subject, not asserted here
-	includes    int           // include nodes evaluated
-	maxProps    int
-	probes      int
-	propCond    bool // a condition names a component prop (p<k>) that is undefined where it is evaluated
-	propInLoop  bool // ... and is evaluated inside a loop body
-	chainsTotal int
+	ignore           map[string]bool // markers of orphans: nothing is asserted about them
+	chains           int
+	maxMembers       int
+	chose            map[string]int // "if" | "elif" | "else" | "none" -> how often
+	nonBool          bool
+	inLoop           bool // a chain evaluated inside a loop body
+	inChain          bool // a chain nested inside a chain member
+	tmpl             bool
+	forMember        bool
+	orphans          int
+	adjacent         bool
+	seps             map[string]bool
+	depth            int
+	forElse          []*Node // region of C03-vfor-on-else-member: chosen non-first members carrying v-for
+	forIfElif        []*Node // region of C03-vfor-on-if-member: falsy first member carrying v-for, next member v-else-if
+	forIfPre         []*Node // region of C03-vfor-on-if-member-vpre-tail: truthy first member carrying v-for, a later member carries v-pre
+	forSkipped       []*Node // region of C03-vfor-member-after-chosen-branch: an earlier member was chosen (v-else-if, or v-if with v-for) and the member directly before the v-else carries v-for
+	negated          bool
+	sibBefore        bool
+	sibAfter         bool
+	loopEmpty        bool
+	rootText         string // expected text directly at the top level
+	texts, itexts    int
+	textAfterChain   bool // a text sibling directly follows the last member of a chain
+	textAfterFalseIf bool // ... of a chain whose v-if was falsy
+	shadowed         bool // a condition read a vloop variable
+	shadowOpp        bool // ... that shadows a global of the opposite truthiness
+	shadowNil        bool // ... being nil while the shadowed global is truthy
+	vloops           int
+	slotted          int  // slot uses evaluated
+	slotChain        bool // a chain evaluated inside slot content
+	slotTwice        bool
+	preMember        bool
+	onceMember       bool
+	laterDeco        bool          // an unchosen member after the chosen one carries v-pre / v-once / v-for
+	chosenN          map[*Node]int // how often each member was the chosen one
+	onceRepeat       []*Node       // v-once members chosen more than once: C16's subject, not asserted here
+	includes         int           // include nodes evaluated
+	maxProps         int
+	probes           int
+	propCond         bool // a condition names a component prop (p<k>) that is undefined where it is evaluated
+	propInLoop       bool // ... and is evaluated inside a loop body
+	chainsTotal      int
 }
 
 type model struct {
@@ -346,11 +354,28 @@ func (m *model) eval(nodes []Node, sc scope, depth int, inLoop, inChain bool) []
 	}
 	var out []Out
 	prevChainEnd := false
+	lastChosen := 0 // index of the member the previous chain chose (-1 none)
 	for i := 0; i < len(nodes); i++ {
 		n := &nodes[i]
 		switch n.Kind {
 		case "plain":
 			out = append(out, Out{ID: n.M, Text: "t" + n.M, Kids: m.eval(n.Kids, sc, depth+1, inLoop, inChain)})
+			prevChainEnd = false
+		case "text":
+			tok := "w" + n.M
+			if n.Interp {
+				tok = "wZ" + n.M
+				m.st.itexts++
+			}
+			m.st.texts++
+			if prevChainEnd {
+				m.st.textAfterChain = true
+				if lastChosen != 0 {
+					m.st.textAfterFalseIf = true
+				}
+			}
+			out = append(out, Out{Text: tok}) // ID "": folded into the parent's own text
+			// a following v-if starts a new chain, but the text is what follows the previous one
 			prevChainEnd = false
 		case "include":
 			m.st.includes++
@@ -507,6 +532,7 @@ func (m *model) eval(nodes []Node, sc scope, depth int, inLoop, inChain bool) []
 			}
 			i = j - 1
 			prevChainEnd = true
+			lastChosen = chosen
 		case "elif", "else":
 			// orphan: not a member of any chain. docs/syntax.md does not say what happens to it, so
 			// nothing is asserted about the orphan itself - only that its neighbours are intact.
@@ -534,6 +560,38 @@ func (m *model) member(n *Node, sc scope, depth int, inLoop bool) []Out {
 	return []Out{{ID: n.M, Text: "t" + n.M, Kids: m.eval(n.Kids, sc, depth+1, inLoop, true)}}
 }
 
+// foldText moves the text siblings (Out with empty ID) into the own text of their parent and
+// returns the ones of this level.
+func foldText(l []Out) ([]Out, []string) {
+	var out []Out
+	var texts []string
+	for _, o := range l {
+		if o.ID == "" {
+			texts = append(texts, o.Text)
+			continue
+		}
+		kids, own := foldText(o.Kids)
+		o.Kids = kids
+		if len(own) > 0 {
+			// flags (+hidden ...) only occur on probes, which have no children
+			o.Text += " " + strings.Join(own, " ")
+		}
+		out = append(out, o)
+	}
+	return out, texts
+}
+
+// rootText is the text directly at the top level of a parsed forest.
+func rootText(l []*hx.N) string {
+	var own []string
+	for _, n := range l {
+		if n.Tag == "" && !n.Doctype {
+			own = append(own, n.Text)
+		}
+	}
+	return strings.Join(own, " ")
+}
+
 // expect runs the model over a case.
 func expect(c *Case) ([]Out, *stats) {
 	m := &model{c: c, st: newStats()}
@@ -543,6 +601,8 @@ func expect(c *Case) ([]Out, *stats) {
 			m.st.onceRepeat = append(m.st.onceRepeat, n)
 		}
 	}
+	out, top := foldText(out)
+	m.st.rootText = strings.Join(top, " ")
 	return out, m.st
 }
 
@@ -584,6 +644,12 @@ func writeNodes(sb *strings.Builder, nodes []Node, form string) {
 		n := &nodes[i]
 		sb.WriteString(sepText(n.Sep))
 		switch {
+		case n.Kind == "text":
+			if n.Interp {
+				sb.WriteString(" w{{ tw }}" + n.M + " ")
+			} else {
+				sb.WriteString(" w" + n.M + " ")
+			}
 		case n.Kind == "include":
 			fmt.Fprintf(sb, `<template include="comp.vuego" mk="%s"`, n.M)
 			for k := 0; k < n.Props; k++ {
@@ -755,6 +821,7 @@ func (c *Case) data() map[string]any {
 		}
 		d[name] = l
 	}
+	d["tw"] = "Z" // printed by interpolated text siblings
 	for n := 1; n <= maxFor(c.Nodes); n++ {
 		l := make([]any, n)
 		for i := range l {
